@@ -53,7 +53,7 @@ type backendCfg struct {
 }
 
 type input struct {
-	Kind    string       `json:"kind"` // hist | seq | promoted
+	Kind    string       `json:"kind"` // hist | seq | promoted | iter
 	Policy  policy       `json:"policy"`
 	Hist    []filt.Op    `json:"hist,omitempty"`
 	Backend backendCfg   `json:"backend"`
@@ -68,6 +68,9 @@ type input struct {
 	// backend, outermost first (see dyn.go)
 	Dyn   string  `json:"dyn,omitempty"`
 	Under []under `json:"under,omitempty"`
+	// iter: Hist[0] is the iterator method called, Events the recording backend's raw yields,
+	// Consumers the callbacks that iterate the returned Seq one after the other (iter.go)
+	Consumers []consumer `json:"consumers,omitempty"`
 }
 
 func (p policy) coq() string {
@@ -210,6 +213,9 @@ type observed struct {
 	Res          *filt.Res    `json:"res,omitempty"`
 	PolicyCalls  int          `json:"policy_calls"`
 	BackendCalls int          `json:"backend_calls"`
+	// iter: the backend calls made while the method call ran, and what each iteration showed
+	Pre   []filt.Op `json:"pre,omitempty"`
+	Iters []iterObs `json:"iters,omitempty"`
 }
 
 func runHist(in input) (string, observed) {
@@ -493,6 +499,8 @@ func runCase(in input) (string, observed) {
 		return runSeq(in)
 	case "promoted":
 		return runPromoted(in)
+	case "iter":
+		return runIter(in)
 	}
 	panic("unknown case kind " + in.Kind)
 }
@@ -503,6 +511,8 @@ func outcomeKind(in input, obs observed) string {
 		return "seq"
 	case "promoted":
 		return "promoted"
+	case "iter":
+		return iterOutcome(in, obs)
 	}
 	k := "passed"
 	for i, o := range obs.Ops {
@@ -951,6 +961,14 @@ func main() {
 		nhs, nseqs = 5000, 8000
 	}
 	stackRandom(add, rnd, randPolicy, names, nhs, nseqs)
+	// ---- the iterator methods under every kind of consumer: stops anywhere, stops on the
+	// error, carries on after the error, iterates again, never iterates (iter.go) ----
+	niter := 400
+	if cfg.Thorough() {
+		niter = 10000
+	}
+	iterEnum(add)
+	iterRandom(add, rnd, randPolicy, names, niter)
 	if err := out.Flush(); err != nil {
 		panic(err)
 	}
